@@ -104,8 +104,8 @@ def build(tier, seed):
         df = ", default = X::default()" if t == "Default" else ""
         bound = "Ord + Copy + Default"
         add("use nutype::nutype;\n#[nutype(sanitize(with = |x| x), derive(%s)%s)]\npub struct W<X: %s>(X);" % (", ".join(der), df, bound), "generic:plain:%s" % t)
-        if t not in ("Arbitrary", "Default"):
-            add("use nutype::nutype;\n#[nutype(validate(predicate = |x| *x >= X::default()), derive(%s))]\npub struct W<X: %s>(X);" % (", ".join(der), bound), "generic:validated:%s" % t)
+        if t != "Arbitrary":
+            add("use nutype::nutype;\n#[nutype(validate(predicate = |x| *x >= X::default()), derive(%s)%s)]\npub struct W<X: %s>(X);" % (", ".join(der), df, bound), "generic:validated:%s" % t)
     # the std-using control: shows the crate really is no_std (must be rejected)
     add("use nutype::nutype;\nfn san(x: i32) -> i32 { let _s = ::std::string::String::new(); x }\n#[nutype(sanitize(with = san), derive(Debug))]\npub struct T(i32);", "control:std-path-is-unresolvable", expect="MUST_REJECT")
     add("use nutype::nutype;\nfn san(x: i32) -> i32 { let _s = String::new(); x }\n#[nutype(sanitize(with = san), derive(Debug))]\npub struct T(i32);", "control:std-prelude-name-is-unresolvable", expect="MUST_REJECT")
